@@ -9,10 +9,10 @@
 (* of the specification (tool error), never a verdict about the code.       *)
 EXTENDS ModeSFrame
 
-(* the set is forced into a sequence once (set comprehensions stay lazy in  *)
-(* TLC and would be re-enumerated inside every quantifier)                  *)
-ShapeSeq == SetToSeq(AllShapes)
-N == Len(ShapeSeq)
+(* the set is forced into a sequence once: TLC does not cache definitions   *)
+(* that depend on RECURSIVE operators (AllShapes does), it re-evaluates    *)
+(* them at every use; a LET-bound value is evaluated once.  All checks are  *)
+(* therefore operators of (S, N) under a single LET.                        *)
 
 PinValue(s, off, w) ==   \* value pinned on exactly (off, w), or -1
   LET K == {k \in 1..Len(s.pins) : s.pins[k][1] = off /\ s.pins[k][2] = w}
@@ -25,33 +25,50 @@ FirstThree(s) ==         \* the three bits after DF when all of them are pinned,
        THEN 4 * PinValue(s, 5, 1) + PinValue(s, 6, 2)
   ELSE -1
 
-ASSUME WellFormed == \A i \in 1..N : ShapeWF(ShapeSeq[i])
-ASSUME UniqueNames == Cardinality({ShapeSeq[i].cls : i \in 1..N}) = N
+WellFormed(S, N) == \A i \in 1..N : ShapeWF(S[i])
+UniqueNames(S, N) == Cardinality({S[i].cls : i \in 1..N}) = N
 
 (* coverage, stated as cardinalities of key sets (each key set is a subset  *)
 (* of the full product by construction, so equality of sizes is coverage)   *)
-ASSUME EveryFormat ==
-  Cardinality({<<ShapeSeq[i].df, FirstThree(ShapeSeq[i])>> :
-                 i \in {j \in 1..N : FirstThree(ShapeSeq[j]) >= 0}}) = 32 * 8
-ASSUME EverySquitterCombination ==
+EveryFormat(S, N) ==
+  Cardinality({<<S[i].df, FirstThree(S[i])>> :
+                 i \in {j \in 1..N : FirstThree(S[j]) >= 0}}) = 32 * 8
+EverySquitterCombination(S, N) ==
   Cardinality({<<s.df, PinValue(s, 5, 3), PinValue(s, 32, 5), PinValue(s, 37, 3)>> :
-                 s \in {ShapeSeq[i] : i \in {j \in 1..N : /\ ShapeSeq[j].df \in {17, 18}
-                                                        /\ PinValue(ShapeSeq[j], 32, 5) >= 0
-                                                        /\ PinValue(ShapeSeq[j], 37, 3) >= 0}}})
+                 s \in {S[i] : i \in {j \in 1..N : /\ S[j].df \in {17, 18}
+                                                 /\ PinValue(S[j], 32, 5) >= 0
+                                                 /\ PinValue(S[j], 37, 3) >= 0}}})
     = 2 * 8 * 32 * 8
-ASSUME EveryVersion ==
+EveryVersion(S, N) ==
   Cardinality({<<s.df, PinValue(s, 5, 3), PinValue(s, 37, 3), PinValue(s, 72, 3), PinValue(s, 40, 2)>> :
-                 s \in {ShapeSeq[i] : i \in {j \in 1..N : /\ ShapeSeq[j].df \in {17, 18}
-                                                        /\ PinValue(ShapeSeq[j], 32, 5) = 31}}})
+                 s \in {S[i] : i \in {j \in 1..N : /\ S[j].df \in {17, 18}
+                                                 /\ PinValue(S[j], 32, 5) = 31}}})
     = 2 * 8 * 8 * 8 * 2
-ASSUME EveryAvailabilityPattern ==
+EveryAvailabilityPattern(S, N) ==
   \A df \in {20, 21} : \A k \in 1..NRegs :
     LET r == StatusRegs[k][2]
         offs == [m \in 1..Len(r.st) |-> 32 + Lay(0, r.ws)[r.st[m]][1]]
-    IN Cardinality({[m \in 1..Len(r.st) |-> PinValue(ShapeSeq[i], offs[m], 1)] :
-                      i \in {j \in 1..N : /\ ShapeSeq[j].df = df
-                                          /\ \A m \in 1..Len(r.st) : PinValue(ShapeSeq[j], offs[m], 1) >= 0}})
+    IN Cardinality({[m \in 1..Len(r.st) |-> PinValue(S[i], offs[m], 1)] :
+                      i \in {j \in 1..N : /\ S[j].df = df
+                                          /\ \A m \in 1..Len(r.st) : PinValue(S[j], offs[m], 1) >= 0}})
          = 2 ^ Len(r.st)
+(* every Comm-B register number that announces itself in its first byte     *)
+(* (1,0 2,0 3,0) is pinned in some shape of each Comm-B format              *)
+EveryNumberedRegister(S, N) ==
+  \A df \in {20, 21} : \A b \in {16, 32, 48} :
+    \E i \in 1..N : S[i].df = df /\ PinValue(S[i], 32, 8) = b
+
+ASSUME ShapeSpace ==
+  LET S == SetToSeq(AllShapes)
+      N == Len(S)
+  IN /\ WellFormed(S, N)
+     /\ UniqueNames(S, N)
+     /\ EveryFormat(S, N)
+     /\ EverySquitterCombination(S, N)
+     /\ EveryVersion(S, N)
+     /\ EveryAvailabilityPattern(S, N)
+     /\ EveryNumberedRegister(S, N)
+     /\ PrintT(<<"SHAPES", N>>)
 
 (* the standard's overlay: AP = parity(payload) xor address *)
 Overlay(payload, addr) ==
@@ -66,6 +83,24 @@ ASSUME OverlayRoundTrip ==
     IN Len(f) = LenFor(df) /\ ShownDF(f) = df /\ ShownICAO(f) = a
 ASSUME AnnouncedAddress ==
   \A df \in AAFormats : ShownICAO(<<8 * df, 171, 205, 239, 0, 0, 0>>) = 11259375
+(* the byte-wise remainder used by the trace specification is the long      *)
+(* division of CRC24.tla: all 256 table entries, and whole frames           *)
+ASSUME FastTable == /\ Len(CrcTabSeq) = 256
+                    /\ \A k \in 0..255 : CrcTabSeq[k + 1] = TableEntry(k)
+SampleFrame(n, len) == [i \in 1..len |-> ((n * 37) + (i * 101) + ((n * i) % 251)) % 256]
+ASSUME FastIsSyndrome ==
+  /\ \A n \in 1..400 : \A len \in {7, 14} :
+        FastSyndrome(SampleFrame(n, len)) = Syndrome(SampleFrame(n, len))
+  /\ \A df \in APFormats, a \in Addresses :
+        LET f == Overlay(IF df >= 16 THEN LongPayload(df) ELSE ShortPayload(df), a)
+        IN ShownICAOFast(f) = a /\ ShownICAOFast(f) = ShownICAO(f)
+  /\ \A len \in 0..6 : FastSyndrome(SampleFrame(3, len)) = Syndrome(SampleFrame(3, len))
+ASSUME AddressCarriers ==
+  /\ \A df \in 0..31 : \A x \in 0..7 :
+        CarriesAddress(<<8 * df + x, 1, 2, 3>>) <=>
+          (df \in {0, 4, 5, 11, 16, 17, 20, 21} \/ (df = 18 /\ x \notin {4, 7}))
+  /\ \A df \in AddressedDF : \E x \in 0..7 : CarriesAddress(<<8 * df + x, 1, 2, 3>>)
+
 ASSUME Text ==
   /\ Hex6(0) = <<48, 48, 48, 48, 48, 48>>
   /\ Hex6(11259375) = <<97, 98, 99, 100, 101, 102>>       \* "abcdef"
@@ -74,7 +109,6 @@ ASSUME Text ==
   /\ Decimal(0) = <<48>> /\ Decimal(5) = <<53>> /\ Decimal(17) = <<49, 55>> /\ Decimal(21) = <<50, 49>>
   /\ Lower(<<56, 68, 65, 102>>) = <<56, 100, 97, 102>>
   /\ \A df \in 0..31 : LenFor(df) \in {7, 14} /\ (LenFor(df) = 14 <=> df >= 16)
-ASSUME Counted == PrintT(<<"SHAPES", N>>)
 
 VARIABLE x
 Init == x = 0
